@@ -237,6 +237,21 @@ def run_program(P: dict, pid: int, seed: int, pass_names=None, with_sequences=Tr
                 # keep what a concrete witness needs
                 out["witness"][key] = after_bytes
     out["proto"] = proto_bytes
+    # the sorting pass is also given the same program with its nested bodies in reverse node order
+    # (not checker-valid, so only the contract clauses are recorded, no before/after pair)
+    if any(len(g["nodes"]) > 1 for g in P["g"][len(P["f"]) + 1:]) and (pass_names is None or "TopologicalSort" in pass_names):
+        rp = rewrite.concretize(P, variant=pid, reverse_bodies=True).SerializeToString()
+        model = ir.from_proto(onnx.load_from_string(rp))
+        b0 = ser(model)
+        try:
+            res = PASSES["TopologicalSort"]()(model)
+            b1 = ser(res.model)
+            out["apps"].append({"id": f"{pid}:TopologicalSort@unsorted-body", "a": {
+                "inplace": True, "same": res.model is model, "modified": bool(res.modified), "changed": b1 != b0,
+                "rounds": [{"modified": False, "changed": False}], "size": 1, "invariantsOK": True, "sortedBefore": False,
+                "sortedAfter": bool(is_sorted(res.model)), "namesOK": True, "analysis": False}})
+        except Exception as e:  # noqa: BLE001
+            out["raised"].append({"id": f"{pid}:TopologicalSort@unsorted-body", "error": f"{type(e).__name__}: {str(e)[:160]}", "cause": ""})
     return out
 
 
